@@ -146,7 +146,7 @@ def _header(ctx, run, f):
     ok = False
     for i in calls:
         for a in atoms.atoms_at(f, i):
-            if a.rel == "<" and a.R is not None and a.R.const == 0 and "vbi_unham16p" in a.L.calls:
+            if a.rel == "<" and a.R is not None and a.R.const == 0 and ("vbi_unham16p" in a.L.calls or a.L.held == "vbi_unham16p"):
                 ok = True
     key = "RF-DOM:vbi_decode_teletext:header-desync"
     if ok:
